@@ -15,7 +15,7 @@ from concurrent.futures import ProcessPoolExecutor
 
 import numpy as np
 
-from .. import stages
+from .. import scorersizes, stages
 from ..common import Check
 from ..tlc import Workdir
 
@@ -185,6 +185,7 @@ def run(tier: str) -> int:
     chk.assumptions = ["TLC/SANY and the Json module",
                        "data in general position so that the non-PD error (C01) does not interfere"]
     with Workdir(PROP) as wd:
+        scorersizes.stage(chk, tier, wd)   # growth: min_size / get_param_size follow the LAST fit (ScorerSizes.tla)
         stages.model_check(chk, "Cuts", dict(NMax=nmax, Margin=margin, CheckMode="bounds", DiffMode="exact", Emit=False), INVS,
                            wd=wd, label="A:box", coverage=(tier == "thorough"), expect_actions=("Check", "Kernel"))
         cases = stages.emit_cases(chk, "Cuts", dict(NMax=nmax, Margin=margin, CheckMode="bounds", DiffMode="exact"), wd=wd,
